@@ -110,3 +110,52 @@ PLANS["C20"] = {
         T("audit", "audit", (30, 600), ["InvNoPanic"]),
     ],
 }
+
+PLANS["C02"] = {
+    "level": "model_checking",
+    "assumptions": L1_ASSUME + ["index transparency is refinement of the index-free L1 model: every twin collection "
+                                "(same documents, different index sets) must conform to the same specification state"],
+    "stages": [
+        T("twins", "twins", (14, 400), ["InvC02"], chunk=4),
+        EDG("edges", ["InvC02"], ops=["Derived", "UpdateFunc", "Delete"], states=(25, 0), reads=(20, 250), writes=(6, 60)),
+    ],
+}
+
+PLANS["C03"] = {
+    "level": "model_checking",
+    "assumptions": L1_ASSUME,
+    "stages": [
+        T("bulk", "bulk", (36, 240), ["InvC03"], backends="bolt,badger", chunk=3, heap="6g"),
+        T("bulkbig", "bulkbig", (0, 40), ["InvC03"], backends="bolt,badger", chunk=1, heap="10g", tier="thorough"),
+        T("general", "general", (30, 600), ["InvC03"]),
+        EDG("edges", ["InvC03"], ops=["UpdateFunc", "Delete", "DropCollection"], states=(30, 0), reads=(0, 0), writes=(20, 0)),
+    ],
+}
+
+PLANS["C11"] = {
+    "level": "model_checking",
+    "assumptions": L1_ASSUME + ["encode/decode fidelity is observed through the strict alpha: exact Go type, bits, instant and zone offset"],
+    "stages": [
+        T("rich", "rich", (60, 2000), ["InvC01", "InvAuditDocs"]),
+        T("rich-reopen", "richreopen", (20, 400), ["InvC01", "InvAuditDocs", "InvReopen"], backends="bolt,badger"),
+        T("extremes", "extremes", (15, 300), ["InvC01", "InvAuditDocs"]),
+        T("floats", "floats", (15, 300), ["InvC01", "InvAuditDocs"]),
+    ],
+}
+
+PLANS["C15"] = {
+    "level": "model_checking",
+    "assumptions": L1_ASSUME,
+    "stages": [
+        T("general3", "general", (40, 1000), ["InvBackendsAgree", "InvOutcome", "InvValue"], backends="bolt,badger,badgermem", chunk=8),
+        T("sort3", "sort", (20, 500), ["InvBackendsAgree", "InvValue"], backends="bolt,badger,badgermem", chunk=8),
+    ],
+}
+
+PLANS["C19"] = {
+    "level": "model_checking",
+    "assumptions": L1_ASSUME + ["JSON-representable documents only: finite numbers within 2^53, valid UTF-8 without NUL, no -0.0"],
+    "stages": [
+        T("io", "io", (60, 1500), ["InvC19", "InvExportFile", "InvValue"]),
+    ],
+}
